@@ -59,13 +59,20 @@ def jobs(tier):
     SR_CHECKS = ["--no-standard-checks", "--no-malloc-may-fail", "--div-by-zero-check"]
     SR_FNS = ["foamSIntReduce", "foamNew", "foamNewEmpty", "foamNewAlloc", "longIsInt32"]
     SR_ASS = ["foamInit() already ran (foamIsInit forced): it only interns tag names and registers formatters",
-              "FOAM nodes are allocated as whole union foam objects (struct hack, README); memory safety of foamNew's varargs is NOT claimed in this job"]
-    if tier == "thorough":
-        # loops bounded by the constant hunks = 3: complete for all 2^64 values; symex of the union foam stores takes ~5 min
+              "memory safety of foamNew's varargs is NOT claimed in this job (functional checks only)"]
+    if True:
+        # loops bounded by the constant hunks = 3: complete for all 2^64 values.  Nodes are allocated at exactly the size
+        # foamNewAlloc asks for (-DV_EXACT_FOAM_NODES): with whole-union nodes symbolic execution of the stores took ~5 min
         J("foam.foamSIntReduce.all_2^64_values", "foam_h.c", "h_foamSIntReduce", SR_FNS, ["v"], cbmc=SR_UNW, checks=SR_CHECKS,
-          timeout=1800, assumed=SR_ASS)
-        J("canary.foam.foamSIntReduce", "foam_h.c", "h_foamSIntReduce", SR_FNS, ["v"], kind="canary", defs=["-DCANARY_reduce"],
+          timeout=1800, assumed=SR_ASS, defs=["-DV_EXACT_FOAM_NODES"])
+        J("canary.foam.foamSIntReduce", "foam_h.c", "h_foamSIntReduce", SR_FNS, ["v"], kind="canary", defs=["-DCANARY_reduce", "-DV_EXACT_FOAM_NODES"],
           cbmc=SR_UNW, checks=SR_CHECKS, timeout=1800)
+    # ---- foam.c: the format the writer chooses for a node must hold every integer field of that node ------------------
+    for tg in ("Loc", "Par", "Lex", "Glo", "Const", "RElt", "EElt", "IRElt", "TRElt", "RRElt", "Env", "Label"):
+        J("foam.foamTagFormat." + tg, "foam_h.c", "h_foamTagFormat", ["foamTagFormat"], ["f0", "f1", "f2", "f3", "gi"],
+          defs=["-DTAGFMT_TAG=FOAM_" + tg, "-DV_EXACT_FOAM_NODES"], cbmc=OB, checks=SR_CHECKS)
+    J("canary.foam.foamTagFormat", "foam_h.c", "h_foamTagFormat", ["foamTagFormat"], ["f0", "f1", "f2", "f3", "gi"], kind="canary",
+      defs=["-DTAGFMT_TAG=FOAM_EElt", "-DV_EXACT_FOAM_NODES", "-DCANARY_tagfmt"], cbmc=OB, checks=SR_CHECKS)
     # ---- foam.c: integer formats and the tag byte (loop-free, full domains) ---------------------------------------------
     J("foam.FOAM_PUT_INT_GET_INT.every_format", "foam_h.c", "h_foam_put_get_int", ["bufPutSInt", "bufPutByte", "bufGetSInt", "bufGetByte"],
       BUF_IN + ["fmt", "v"], cls="B", bound=WR_BOUND, cbmc=OB)
